@@ -1303,6 +1303,7 @@ pub fn disccmp(a: &HashMap<String, String>) -> i32 {
         cfg.w_spur = 0;
         cfg.steps = 50;
         cfg.endings = vec!["none"]; // simultaneous terminating causes may legally be reported in either order
+        cfg.unsolicited_pct = 0; // an acknowledgement nobody waits for yet races with the request it would match
         let rseed = seed.wrapping_mul(7919).wrapping_add(i as u64);
         let p = Params { run: base * 3, fam: "disccmp".into(), r: None, disc: "wake".into(), ..Default::default() };
         // Receive Maximum absent: with a small quota the outcome of a publish legitimately depends on whether a
